@@ -35,13 +35,19 @@ SmallVerdict(tr, run) ==
 PermVerdict(tr, run) ==
    LET r == IF tr.api = "shuffle" THEN SmpShuffle(tr.n, run.tape) ELSE SmpSample(tr.n, tr.k, run.tape)
        vals == {run.out[j] : j \in 1..Len(run.out)}
-       wellformed == IF tr.api = "shuffle" THEN Len(run.out) = tr.n /\ vals = 0..(tr.n - 1)
-                     ELSE Len(run.out) = tr.k /\ Cardinality(vals) = tr.k /\ vals \subseteq 0..(tr.n - 1)
+       \* the population: the model selects POSITIONS (SmpSample / SmpShuffle work on 0..n-1); the result carries the elements at those
+       \* positions.  With repeated elements in the population, selection by value instead of by position is visible.
+       popset == {tr.pop[j] : j \in 1..Len(tr.pop)}
+       distinct == Cardinality(popset) = Len(tr.pop)
+       expected == [j \in 1..Len(r.out) |-> tr.pop[r.out[j] + 1]]
+       wellformed == IF tr.api = "shuffle" THEN Len(run.out) = tr.n /\ vals = popset
+                     ELSE Len(run.out) = tr.k /\ (distinct => Cardinality(vals) = tr.k) /\ vals \subseteq popset
    IN IF ~IsBytes(run.tape) THEN "harness: tape is not a byte string"
       ELSE IF run.exc = "starved" THEN (IF r.st = "starved" THEN Det(run, TRUE) ELSE "bytes drawn differ")
       ELSE IF run.exc # "none" THEN "sampler raised " \o run.exc
       ELSE IF ~wellformed THEN "result out of range"
-      ELSE IF r.st # "done" \/ run.out # r.out THEN "value differs from the rejection sampler"
+      ELSE IF Len(tr.pop) # tr.n THEN "harness: population length"
+      ELSE IF r.st # "done" \/ run.out # expected THEN "value differs from the rejection sampler"
       ELSE IF run.drawn # r.drawn THEN "bytes drawn differ"
       ELSE Det(run, run.out2 = run.out)
 -----------------------------------------------------------------------------
